@@ -1,0 +1,25 @@
+//go:build verif
+
+// Copyright IBM Corp. 2013, 2026
+// SPDX-License-Identifier: MPL-2.0
+
+package agent
+
+import (
+	"io"
+
+	"github.com/hashicorp/cli"
+)
+
+// This file exists only in builds with the "verif" tag. It lets an external
+// harness obtain the log plumbing exactly as Command.Run sets it up, so that
+// the log buffer the IPC layer replays to a new monitor is the one the agent
+// really configures. It changes no behaviour.
+
+// VerifSetupLoggers runs Command.setupLoggers for the given configuration and
+// returns what Run passes on: the output gate, the log sink handed to the IPC
+// layer and the combined log output.
+func VerifSetupLoggers(config *Config) (*GatedWriter, *logWriter, io.Writer) {
+	c := &Command{Ui: &cli.BasicUi{Writer: io.Discard, ErrorWriter: io.Discard}}
+	return c.setupLoggers(config)
+}
